@@ -180,6 +180,58 @@ def c07_obligations(tier='quick', order=None):
     return out
 
 
+def solved_hierarchy_obligations(tier='quick'):
+    """the models whose right-hand sides cannot be evaluated on exact values (effective degree, compact effective degree; node-level
+    individual-based / pair-based on regular graphs) are compared through real numeric solves (scipy odeint, no stub): S, I, R at a few
+    times must agree with the reference model of their family to 1e-4*N.  Bounded (graphs, rates, rho, horizon) and labelled so."""
+    import EoN
+    out = []
+    tau, gamma = 0.8, 1.1
+
+    def solve(name, G, **kw):
+        r = getattr(EoN, name)(G, tau, gamma, tmin=0.5, tmax=4.5, tcount=5, **kw)
+        return [np.asarray(a, dtype=float) for a in r[:4]]
+    groups = []
+    for gname, G in hierarchy_graphs(tier):
+        if 'self-loop' in gname:
+            continue                     # how a self-loop enters the (s, i) classes of the effective-degree models is not fixed by the property
+        for rho in (0.05, 0.3):
+            groups.append(('hierarchy', 'EBCM_from_graph', ['SIR_effective_degree_from_graph', 'SIR_compact_effective_degree_from_graph', 'SIR_compact_pairwise_from_graph',
+                                                            'SIR_super_compact_pairwise_from_graph'], gname, G.copy(), dict(rho=rho)))
+    for gname, G in regular_graphs(tier):
+        groups.append(('regular-SIR', 'SIR_homogeneous_pairwise_from_graph', ['SIR_pair_based'], gname, G, dict(rho=0.2)))
+        groups.append(('regular-SIS', 'SIS_homogeneous_pairwise_from_graph', ['SIS_pair_based'], gname, G, dict(rho=0.2)))
+        groups.append(('regular-SIR-mf', 'SIR_homogeneous_meanfield_from_graph', ['SIR_individual_based'], gname, G, dict(rho=0.2)))
+        groups.append(('regular-SIS-mf', 'SIS_homogeneous_meanfield_from_graph', ['SIS_individual_based'], gname, G, dict(rho=0.2)))
+    for fam, refname, names, gname, G, kw in groups:
+        t0 = time.time()
+        try:
+            ref = solve(refname, G, **kw)
+        except Exception as e:
+            out.append(Ob('native:solved:%s:%s:%s:%s' % (fam, refname, gname, kw), 'EoN/analytic.py:%s' % refname, 'post', 'undecided', 'numeric solve', 0.0,
+                          detail='%s: %s' % (type(e).__name__, str(e)[:120]), site='EoN/analytic.py:%s' % refname, bounded='-', engine='E5-bounded', replay_note='reference model failed'))
+            continue
+        N = G.order()
+        for name in names:
+            t1 = time.time()
+            fid = 'EoN/analytic.py:%s' % name
+            bad = None
+            try:
+                got = solve(name, G, **kw)
+                k = min(len(ref), len(got))
+                dev = max(float(np.abs(a - b).max()) for a, b in zip(ref[1:k], got[1:k]))
+                if not dev <= 1e-4 * N:
+                    bad = 'integrated curves of %s and %s differ by %.3g (N=%d, tau=%s, gamma=%s, %s, t in [0.5, 4.5])' % (name, refname, dev, N, tau, gamma, kw)
+            except Exception as e:
+                bad = '%s: %s' % (type(e).__name__, str(e)[:150])
+            out.append(Ob('native:solved:%s:%s==%s:%s:%s' % (fam, name, refname, gname, sorted(kw.items())), fid, 'post', 'bounded-refuted' if bad else 'bounded-ok',
+                          backend='real numeric solves (scipy odeint) of both models', seconds=round(time.time() - t1, 2), detail=bad or '', site=fid,
+                          bounded='graph %s, tau=%s, gamma=%s, %s, 5 report times, tolerance 1e-4*N' % (gname, tau, gamma, kw),
+                          witness=dict(graph=gname, edges=[[str(a), str(b)] for a, b in G.edges()], arguments={k_: str(v) for k_, v in kw.items()}, observed=bad) if bad else None,
+                          replayed=True if bad else None, engine='E5-bounded'))
+    return out
+
+
 def c08_obligations(tier='quick'):
     import EoN
     out = []
